@@ -705,6 +705,8 @@ func aslashPrepare(k *kvs, derive bool) func() string {
 			o := sr
 			o[3] ^= 1
 			sig = c.aggSign(signers, o[:])
+		case "compplus", "compminus": // honest aggregate plus / minus a fixed point: a pair keeps the sum of both aggregates
+			sig = c.shiftSig(c.aggSign(signers, sr[:]), sk == "compminus")
 		case "garbage", "zero", "infinity":
 			sig = c.sign(sigKind(sk), 0, common.DOMAIN_BEACON_ATTESTER, ep, 0, root)
 		default:
